@@ -187,7 +187,7 @@ def _work_cli(job):
             so = cli.split_debug(so)
         dec = cli.decode(so, fmt)
         return dict(idx=job["idx"], argv=[a if len(a) < 80 else a[:40] + "..." for a in av], res=dict(res, stdout=res["stdout"][-3000:]),
-                    dec=dec, paths={str(k): v for k, v in paths.items()})
+                    dec=dec, paths={str(k): v for k, v in paths.items()}, fam=fam, naming=job.get("naming", True), content_idx=job["idx"])
     finally:
         cli.cleanup(d)
 
@@ -260,7 +260,8 @@ def compare_cli(R, rec, w, with_status, what):
                          tree=[(n["parent"], paths[i + 1][1], n["kind"], n["cls"], n["ignored"]) for i, n in enumerate(rec["tree"])],
                          args=rec["args"], opts=rec["opts"], predicted=pred, observed=obs, predicted_status=rec["status"],
                          observed_status=res["status"], exc=res["exc"], stdout_tail=res["stdout"][-1500:],
-                         stderr_tail=res["stderr"][-800:]))
+                         stderr_tail=res["stderr"][-800:],
+                         replay=dict(rec=rec, fam=w.get("fam"), naming=w.get("naming", True), idx=w.get("content_idx", 0), with_status=with_status)))
         return False
     R.validated()
     return True
@@ -389,7 +390,8 @@ def run_c16(pid, tier):
         got = w["dec"]["files"][0]["diags"]
         if sorted(want) != sorted(got):
             R.violation(dict(kind="cli_options", problems=["diagnostics differ from those under default options"], argv=w["argv"],
-                             cls=cls, opts=o, expected=sorted(want), observed=sorted(got)))
+                             cls=cls, opts=o, expected=sorted(want), observed=sorted(got),
+                             replay=dict(rec=rec, fam="options", naming=True, idx=w["idx"], with_status=True)))
             continue
         if o["R"] not in ("none",) and cls == "errdef" and o["debug"] == 0:
             R.sample(dict(cls=cls, argv=w["argv"], verdict=w["dec"]["files"][0]["status"], diagnostics=got))
@@ -401,9 +403,41 @@ def run(pid, tier):
     return {"C04": run_c04, "C15": run_c15, "C16": run_c16}[pid](pid, tier)
 
 
+class _Probe:
+    """stand-in for evidence.Run in a replay: records whether compare_cli objected"""
+    def __init__(self):
+        self.bad = None
+
+    def violation(self, rec):
+        self.bad = rec
+
+    def validated(self, n=1):
+        pass
+
+
 def replay(pid, path):
     rec = json.load(open(path))
     print(json.dumps({k: rec.get(k) for k in ("problems", "argv", "predicted", "observed", "predicted_status", "observed_status", "exc")},
                      indent=1, default=str))
-    print("(replay: re-run `./check %s` - the record holds the full input: tree, args, opts)" % pid)
-    return 1
+    rp = rec.get("replay")
+    if not rp:
+        print("(record without replay data: re-run `./check %s`)" % pid)
+        return 2
+    job = dict(rec=rp["rec"], idx=rp.get("idx", 0), fam=rp["fam"], naming=rp.get("naming", True), subprocess=True)
+    w = _work_cli(job)
+    P = _Probe()
+    ok = compare_cli(P, rp["rec"], w, rp.get("with_status", True), rec.get("kind", "cli"))
+    if ok and rec.get("kind") == "cli_options":
+        # the findings under these options against the findings of the same file under default options
+        base = dict(rp["rec"], opts=dict(rp["rec"]["opts"], format="humanized", colors=True, only=False, debug=0, R="none", inline="none"))
+        wb = _work_cli(dict(job, rec=base))
+        o = rp["rec"]["opts"]
+        want = [d for d in wb["dec"]["files"][0]["diags"] if not (o["R"] == "CheckDefine" and d[1] in DEFINE_CODES)] if wb["dec"]["files"] else None
+        got = w["dec"]["files"][0]["diags"] if w["dec"]["files"] else None
+        print("default options:", want, "\nthese options:  ", got)
+        ok = want is not None and got is not None and sorted(want) == sorted(got)
+    print("now:", "agrees with the model" if ok else (P.bad or {}).get("problems", "differs"))
+    if not ok:
+        print(f"VIOLATION property={pid} replay={path}")
+        return 1
+    return 0
